@@ -31,6 +31,27 @@ def helpers(cls, text, **_):
   return bool(bad), msg
 
 
+def region_and_p(isd, top, height, display_align, text_align=None, direction=None):
+  """an ISD region with a computed position / extent / displayAlign and a paragraph `x` with the given alignment"""
+  import ttconv.model as m
+  import ttconv.style_properties as sp
+  from ttconv.isd import ISD
+  SP = sp.StyleProperties
+  region = ISD.Region("r1", isd)
+  region.set_style(SP.DisplayAlign, display_align)
+  region.set_style(SP.Position, sp.PositionType(h_offset=sp.LengthType(10, sp.LengthType.Units.rw), v_offset=sp.LengthType(top, sp.LengthType.Units.rh)))
+  region.set_style(SP.Extent, sp.ExtentType(height=sp.LengthType(height, sp.LengthType.Units.rh), width=sp.LengthType(80, sp.LengthType.Units.rw)))
+  p = m.P(isd)
+  if text_align is not None:
+    p.set_style(SP.TextAlign, text_align)
+  if direction is not None:
+    p.set_style(SP.Direction, direction)
+  s = m.Span(isd)
+  s.push_child(m.Text(isd, "x"))
+  p.push_child(s)
+  return region, p
+
+
 def _frac(x):
   from fractions import Fraction
   return Fraction(str(x))
@@ -63,14 +84,13 @@ def to_string(kind, model=None, obligation="", **_):
 def line(display_align, model=None, **_):
   from fractions import Fraction
   import ttconv.style_properties as sp
-  import contracts.c07 as K
   from ttconv.isd import ISD
   from ttconv.vtt.writer import VttContext
   from ttconv.vtt.config import VTTWriterConfiguration
   model = model or {}
   top, h = _frac(model.get("top", 0)), _frac(model.get("height", 0))
   da = sp.DisplayAlignType(display_align)
-  region, p = K._region_and_p(ISD(None), top, h, da)   # pylint: disable=protected-access
+  region, p = region_and_p(ISD(None), top, h, da)   # pylint: disable=protected-access
   vtt = VttContext(VTTWriterConfiguration(line_position=True))
   vtt.process_p(region, p, Fraction(0), Fraction(1))
   cue = vtt._paragraphs[-1]    # pylint: disable=protected-access
@@ -80,4 +100,19 @@ def line(display_align, model=None, **_):
 
 
 def align(**_):
-  return False, "finite table; see the obligation name for the failing (textAlign, direction) pair"
+  from fractions import Fraction
+  import ttconv.style_properties as sp
+  from ttconv.isd import ISD
+  from ttconv.vtt.writer import VttContext
+  from ttconv.vtt.config import VTTWriterConfiguration
+  table = {("center", "ltr"): "center", ("center", "rtl"): "center", ("start", "ltr"): "left", ("start", "rtl"): "right",
+           ("end", "ltr"): "right", ("end", "rtl"): "left"}
+  bad = []
+  for (ta, di), want in table.items():
+    region, p = region_and_p(ISD(None), 10, 10, sp.DisplayAlignType.after, sp.TextAlignType(ta), sp.DirectionType(di))   # pylint: disable=protected-access
+    vtt = VttContext(VTTWriterConfiguration(text_align=True, cue_id=False))
+    vtt.process_p(region, p, Fraction(0), Fraction(1))
+    line = str(vtt._paragraphs[-1]).split("\n")[0]    # pylint: disable=protected-access
+    if not line.endswith(f" align:{want}"):
+      bad.append(f"textAlign {ta} direction {di}: {line!r}, required align:{want}")
+  return bool(bad), "; ".join(bad) if bad else "align follows textAlign x direction for all six combinations"
